@@ -128,7 +128,7 @@ def impl(c):
         if bak and bak in res["files"] and not (c["fault"] and c["fault"][1] == "bak" and fsys.hits):
             enc = (c["try"] or F.DEFAULT_ENCODINGS)
             det = next((e for e in enc if F.text_mode_decode(data, e) is not None), None)
-            res["bak_parses_to"] = G.guarded(lambda: G.sf_obs(simfile.open(bak, encoding=det, filesystem=F.FaultFS(sc.inner))))
+            res["bak_parses_to"] = G.guarded(lambda: G.sf_obs(c05.parse_as(c["fmt"], bak, det, F.FaultFS(sc.inner))))
         return res
     finally:
         sc.close()
@@ -243,6 +243,11 @@ def oracle(c, o):
     if o["exc"] == "OSError" and c["fault"] and c["fault"][0] == "open":
         if files.get(inp) != c["data"] and not (c["fault"][1] == "out" and not c["output"] and False):
             return "a file could not be opened for writing and the input file no longer holds its original bytes"
+    if o["exc"] in ("OSError", "FileNotFoundError", "PermissionError", "IsADirectoryError", "NotADirectoryError", "FileExistsError",
+                    "ResourceNotFound", "FileExpected", "DirectoryExpected", "ResourceError", "FSError") and not o.get("fault_fired"):
+        return "mutate raised %s (a file-system error) although no fault was injected on the file system it was given" % o["exc"]
+    if o["exc"] == "OSError" and o.get("fault_fired") and bak and c["fault"] and c["fault"][1] == "out" and bak not in files:
+        return "the output step failed, a backup had been requested, and no backup exists on the file system mutate was given"
     if o["exc"] is not None and bak and bak in files and not (c["fault"] and c["fault"][1] == "bak"):
         if o.get("bak_parses_to") != ["ok", o["entry"]]:
             return "saving failed (%s) after the backup was written, but the backup does not parse to the original simfile" % o["exc"]
